@@ -299,7 +299,12 @@ bool TimeZoneInfo::EquivTransitions(std::uint_fast8_t tt1_index,
   const TransitionType& tt2(transition_types_[tt2_index]);
   if (tt1.utc_offset != tt2.utc_offset) return false;
   if (tt1.is_dst != tt2.is_dst) return false;
-  if (tt1.abbr_index != tt2.abbr_index) return false;
+  if (tt1.abbr_index != tt2.abbr_index) {
+    // The same designation may be stored more than once (or share a tail).
+    if (std::strcmp(&abbreviations_[tt1.abbr_index],
+                    &abbreviations_[tt2.abbr_index]) != 0)
+      return false;
+  }
   return true;
 }
 
